@@ -53,9 +53,10 @@ fn cli_keyring(p: &mutate::Pool, seed: u64) -> String {
 pub fn check_cli(c: &MCase) -> CheckResult {
     let p = mutate::pool(c.sel, c.pool_seed); let base = &p.files[c.m.base % p.files.len()]; let f = mutate::apply(&p, &c.m);
     let sb = crate::cli::Sandbox::new(); sb.write("k.txt", cli_keyring(&p, c.pool_seed).as_bytes()); sb.write("in.ktl", &f);
+    let stale = c.m.ops.len() % 2 == 1; let junk = crate::gen::bytes_from(9, 400); if stale { sb.write("out.bin", &junk); }
     let r = sb.cmd(&["decrypt", "in.ktl", "-t", &format!("id{}", base.recipient), "-o", "out.bin", "-k", "k.txt", "--env-pass"]).env("KESTREL_PASSWORD", "pool-pw").run();
     crate::ensure!(!r.timed_out && r.signal.is_none() && matches!(r.code, Some(0) | Some(1)), "kestrel decrypt ended abnormally: {}", r.describe());
-    let out = sb.read("out.bin").unwrap_or_default();
+    let mut out = sb.read("out.bin").unwrap_or_default(); if stale && out == junk { out.clear(); }
     let authentic = p.files.iter().find(|a| a.mode == base.mode && a.recipient == base.recipient && a.masked_eq(&f));
     if r.code == Some(0) {
         let a = authentic.ok_or_else(|| format!("`kestrel decrypt` exited 0 for a file that is not authentic outside counter fields ({} bytes presented, {} bytes written)", f.len(), out.len()))?;
